@@ -261,6 +261,42 @@ pub fn composed_line(rng: &mut Rng, base: (u8, u8, Option<u8>)) -> Vec<u8> {
     out
 }
 
+/// The same rendering (tag block, delimiter, address, channel, payload, fill, number padding,
+/// checksum digits and case, trailing bytes) carrying the header of an unfragmented sentence
+/// ("1 of 1", no sequence id) and a valid checksum. Used to ask the real code whether it accepts
+/// this *rendering* at all: the sentence grammar is not the business of the reassembly checks.
+pub fn reheaded_unfragmented(line: &[u8]) -> Option<Vec<u8>> {
+    let lx = lex(line)?;
+    if lx.fields.len() != 7 || lx.digits == 0 {
+        return None;
+    }
+    let pad = |i: usize| -> Vec<u8> {
+        let w = lx.fields[i].len().max(1);
+        format!("{:0w$}", 1, w = w).into_bytes()
+    };
+    let mut body: Vec<u8> = Vec::new();
+    for (i, r) in lx.fields.iter().enumerate() {
+        if i > 0 {
+            body.push(b',');
+        }
+        match i {
+            1 | 2 => body.extend_from_slice(&pad(i)),
+            3 => {}
+            _ => body.extend_from_slice(&line[r.clone()]),
+        }
+    }
+    let value = xor(&body) as u32;
+    let old_digits = &line[lx.star + 1..lx.star + 1 + lx.digits];
+    let upper = !old_digits.iter().any(|b| b.is_ascii_lowercase());
+    let digits = if value > 0xf { lx.digits.max(2) } else { lx.digits };
+    let mut out = line[..=lx.delim].to_vec();
+    out.extend_from_slice(&body);
+    out.push(b'*');
+    out.extend_from_slice(&render_checksum(value, digits.min(8), upper));
+    out.extend_from_slice(&line[lx.star + 1 + lx.digits..]);
+    Some(out)
+}
+
 /// a well-formed sentence with the given header, valid checksum, plain style
 pub fn make_line(addr: &[u8; 5], n: u8, k: u8, id: Option<u8>, chan: &[u8], payload: &[u8], fill: u8) -> Vec<u8> {
     encode_line(
